@@ -89,7 +89,12 @@ int main(int argc, char **argv) {
           if (db) { uint64_t al = A->getParamAlign() ? A->getParamAlign()->value() : 1; d.size = (int64_t)((db + al - 1) / al * al); d.align = (int)al; found = true; break; }
         }
       }
-      if (!found) setupErrors.push_back("no dereferenceable attribute for tensor region " + d.name + " (anchor vanished?)");
+      if (!found) { // the parameter is unused by the witness (clang drops the attribute then): the region is never accessed through it
+        bool anyUse = false;
+        if (stages) for (auto &sv : *stages) { const json::Object &st = *sv.getAsObject(); Function *Fn = findFn(st); if (!Fn) continue; const json::Array *args = st.getArray("args"); if (!args) continue; for (size_t i = 0; i < args->size() && i < Fn->arg_size(); i++) { auto s2 = (*args)[i].getAsString(); if (s2 && s2->str() == d.name && jstr(st, "mod", "wit") == "wit" && !Fn->getArg(i)->use_empty()) anyUse = true; } }
+        if (anyUse) setupErrors.push_back("no dereferenceable attribute for tensor region " + d.name + " (anchor vanished?)");
+        else { d.size = d.cells * d.e.esz; d.align = d.e.esz; found = true; }
+      }
       if (found && d.size < d.cells * d.e.esz) setupErrors.push_back("tensor region " + d.name + " smaller than its cells");
     }
     if (setupErrors.empty()) for (auto &d : regs) {
